@@ -156,6 +156,24 @@ func buildWorld(base string, dsse bool) *world {
 		}
 	})
 	add(item{ID: "t1", File: shortName("s", K1.ID)})
+	// files whose name carries MORE than the first eight characters of an honest signer's key id: they are no
+	// link files of the step (the name format has exactly eight) and must not displace the real one - a copy of
+	// K1's link altered after signing, and K2's honest link under such a name
+	longName := func(id string, n int) string { return fmt.Sprintf("s.%s.link", id[:n]) }
+	pl := mk("t1long", longName(K1.ID, 12), "K1")
+	gen.EditJSONFile(pl, func(doc map[string]any) {
+		ch := func(pl map[string]any) {
+			pl["products"].(map[string]any)["a"].(map[string]any)["sha256"] = "aa12"
+		}
+		if dsse {
+			gen.EditDSSEPayload(doc, ch)
+		} else {
+			ch(doc["signed"].(map[string]any))
+		}
+	})
+	add(item{ID: "t1long", File: longName(K1.ID, 12)})
+	mk("h2long", longName(K2.ID, 9), "K2")
+	add(item{ID: "h2long", File: longName(K2.ID, 9), Signers: []sigDesc{{"K2", false}}})
 	mk("u", "s.aaaaaaaa.link")
 	add(item{ID: "u", File: "s.aaaaaaaa.link"})
 	mk("n12", shortName("s", K2.ID), "K1")
@@ -663,7 +681,7 @@ func replay(c *mcx.Ctx, raw json.RawMessage) (string, string) {
 func init() {
 	mcx.Register(&mcx.Driver{
 		ID: "C02", Run: run, Replay: replay,
-		Rule: "every population (subset of size <= 3 quick / <= 4 thorough) of a 27-element catalogue of link files for step s (honest by authorised / unlisted / foreign-step keys, tampered, unsigned, misnamed, doubly signed (the functionary's signature first or second), with a second worthless entry under the functionary's own key id (after / before the genuine one), forged claimed key id, certificate-signed with good/expired/foreign-root/constraint-violating/attribute-lacking chains, directly below a root or below an intermediate listed in the layout (one under the layout root, one under a foreign root), truncated, a layout, a directory) " +
+		Rule: "every population (subset of size <= 3 quick / <= 4 thorough) of a 29-element catalogue of link files for step s (honest by authorised / unlisted / foreign-step keys, tampered, unsigned, misnamed, named with more than eight characters of the key id, doubly signed (the functionary's signature first or second), with a second worthless entry under the functionary's own key id (after / before the genuine one), forged claimed key id, certificate-signed with good/expired/foreign-root/constraint-violating/attribute-lacking chains, directly below a root or below an intermediate listed in the layout (one under the layout root, one under a foreign root), truncated, a layout, a directory) " +
 			"x threshold 1..3 x authorisation {keys, certificate constraint (a satisfiable constraint followed by one nobody satisfies), mixed; and certificate constraint with a layout that names no root CA, on populations <= 2 at threshold 1, with the catalogue's root in the process's system trust store} x {legacy, DSSE}; for each, InTotoVerify is executed under EVERY iteration order of the per-link counting loop (full permutations; thorough adds one order deviation at every other map range for populations <= 2). " +
 			"A case = one (population, threshold, mode, wrapper), distinct by construction; non-trivial = non-empty population with at least one authorised valid signer. states = populations materialised, transitions = choice points passed.",
 		Assumptions: []string{
